@@ -212,7 +212,7 @@ int main(int argc, char** argv)
 {
   Runtime::ScopeGuard guard(argc, argv);
   verif::Spec spec; spec.property = "C09"; spec.harness = "c09_levels";
-  spec.rule = "case = (mesh/element family, cycle V/F/W, smoothing steps, adaptive CGC mode); one hierarchy per case, contraction factor of every "
+  spec.rule = "case = (mesh/element family, smoothing steps, adaptive CGC mode) x cycles V,F,W inside; one hierarchy per cycle, contraction factor of every "
     "(top,coarse) sub-range by power iteration (36 cycles, geometric mean of the last 12 energy-norm ratios); every case is non-trivial, hashed by its parameters";
   spec.bounds_quick = "1D P1 levels 1..9 (2..512 cells), 2D Q1 and P1 levels 1..6 (<=4225 dofs), 2D Q2 levels 1..5, 3D Q1 levels 1..4 (4913 dofs); Jacobi(0.7) x {1,2} steps; Fixed/MinEnergy/MinDefect";
   spec.bounds_thorough = "1D levels 1..11, 2D Q1/P1 levels 1..7 (16641 dofs), 2D Q2 levels 1..6, 3D Q1 levels 1..5 (35937 dofs)";
@@ -225,15 +225,17 @@ int main(int argc, char** argv)
   return verif::run(spec, argc, argv, [&](verif::Ctx& c) {
     const int nfam = int(sizeof(FAMS) / sizeof(FAMS[0]));
     for(int fam = 0; fam < nfam; ++fam)
-    for(int cycle = 0; cycle < 3; ++cycle)
     for(int steps = 2; steps >= 1; --steps)
     for(int adapt = 0; adapt < 3; ++adapt)
     {
       if(!c.want()) continue;
       const FamilyDesc& F = FAMS[fam];
       const int lmax = c.thorough ? F.lvl_max_thorough : F.lvl_max_quick;
+      c.desc([&]{ return std::string(F.name) + " steps=" + std::to_string(steps) + " adapt=" + std::to_string(adapt) + " cycles V,F,W levels " + std::to_string(F.lvl_min) + ".." + std::to_string(lmax); });
+      std::map<std::pair<int, int>, double> rho_cycle[3];
+     for(int cycle = 0; cycle < 3; ++cycle)
+     {
       const std::string key = std::string(F.name) + " " + "VFW"[cycle] + " steps=" + std::to_string(steps) + " adapt=" + std::to_string(adapt);
-      c.desc([&]{ return key + " levels " + std::to_string(F.lvl_min) + ".." + std::to_string(lmax); });
       Config cfg; cfg.cycle = cycle; cfg.steps = steps; cfg.adapt = adapt; cfg.omega = 0.7;
       uint64_t n_apply = 0;
       std::vector<Index> dofs;
@@ -268,7 +270,18 @@ int main(int argc, char** argv)
       c.maxi("levels", uint64_t(lmax - F.lvl_min + 1));
       c.nontrivial(verif::Hash().str(key).get());
       c.outcome(worst < 0.1 ? "rho<0.1" : worst < 0.2 ? "rho<0.2" : worst < 0.3 ? "rho<0.3" : worst < 0.5 ? "rho<0.5" : worst < 1.0 ? "rho<1" : "rho>=1");
-      if(c.replaying) fprintf(stdout, "%s\n", table.c_str());
+      if(c.replaying) fprintf(stdout, "%s:%s\n", key.c_str(), table.c_str());
+      rho_cycle[cycle] = rho;
+     }
+      // more coarse grid work must not make it worse: rho_W <= rho_F <= rho_V (with a margin for the estimate)
+      const std::string key3 = std::string(F.name) + " steps=" + std::to_string(steps) + " adapt=" + std::to_string(adapt);
+      for(auto& kv : rho_cycle[0])
+      {
+        const double v = kv.second, f = rho_cycle[1][kv.first], w = rho_cycle[2][kv.first];
+        // (with the defect-minimising step length the iteration is nonlinear and F may be slightly slower than V: only W <= V there)
+        const bool ordered = (adapt == 2) ? (w <= v + 0.03) : (f <= v + 0.03 && w <= f + 0.03);
+        c.check(ordered, "cycle ordering rho_W <= rho_F <= rho_V; " + key3, [&]{ char m[200]; snprintf(m, sizeof m, "(top=%d,crs=%d): V %.4f F %.4f W %.4f", kv.first.first, kv.first.second, v, f, w); return std::string(m); });
+      }
     }
   });
 }
